@@ -4,12 +4,35 @@ reacts when the property is broken."""
 
 MUTANTS = [
     # ---- C01
+    dict(prop="C01", name="torch-wrapper-confirms-format-by-loading", file="fickling/pytorch.py",
+         old="""        self._formats = fickling.polyglot.identify_pytorch_file_format(self.path)
+""",
+         new="""        self._formats = fickling.polyglot.identify_pytorch_file_format(self.path)
+        if self.force:
+            try:
+                torch.load(self.path, weights_only=False)
+                self._formats = ["PyTorch v1.3"]
+            except Exception:
+                pass
+"""),
+    dict(prop="C01", name="check-pickle-probe-unpickles", file="fickling/polyglot.py",
+         old="""    try:
+        opcodes = Pickled.load(file).opcodes()""",
+         new="""    try:
+        import pickle as _p
+
+        _p.load(file)
+        return True
+    except Exception:
+        file.seek(0)
+    try:
+        opcodes = Pickled.load(file).opcodes()"""),
     dict(prop="C01", name="global-probes-module-exists", file="fickling/fickle.py",
-         old="""    def run(self, interpreter: Interpreter):
-        module, attr = self.module, self.attr
+         old="""        module, attr = self.module, self.attr
+        imported_name, reference = qualified_name_reference(attr)
         if module in ("__builtin__", "__builtins__", "builtins"):""",
-         new="""    def run(self, interpreter: Interpreter):
-        module, attr = self.module, self.attr
+         new="""        module, attr = self.module, self.attr
+        imported_name, reference = qualified_name_reference(attr)
         try:
             import importlib
 
